@@ -17,4 +17,5 @@ Extraction "../ocaml/evm/model.ml" base_anchor
   op_SHA3 keccakZ spec_SHA3 op_ENV spec_ENV op_POP enforceRestrictions select_rules
   GasTableHomestead_full GasTableHF1_full select_gastable_full gasBalance gasExtCodeSize gasSLoad gasSStore gasCall gasCallCode
   gasDelegateCall gasStaticCall gasSuicide
+  op_BLOCKHASH spec_BLOCKHASH memoryCall memoryCreate
   C_sstore R_sstore C_extra C_call C_xfer C_selfdestruct R_selfdestruct.
